@@ -199,6 +199,114 @@ def walk(x, out, hooked, order):
             walk(i, out, hooked, order)
 
 
+HOOKS4 = """    def __pre_serialize__(self):
+        LOG.append(('pre_ser', type(self).__name__, id(self)))
+        return self
+    def __post_serialize__(self, d):
+        LOG.append(('post_ser', type(self).__name__, id(self)))
+        return d
+    @classmethod
+    def __pre_deserialize__(cls, d):
+        LOG.append(('pre_de', cls.__name__, None))
+        return d
+    @classmethod
+    def __post_deserialize__(cls, obj):
+        LOG.append(('post_de', type(obj).__name__, id(obj)))
+        return obj
+"""
+
+
+def special_hook_cases(rng, tier, rec):
+    """(A) hooks declared on the base of a class-level discriminator: an instance obtained THROUGH the base still runs each
+    hook once; (B) a subclass that adds nothing but hooks (no field, no Config) runs them through every entry point."""
+    import msgpack
+    from mashumaro.codecs.basic import BasicDecoder, BasicEncoder
+    fam = Family("c19s", extra_ns={"LOG": LOG})
+    try:
+        which = rng.choice("AB")
+        mixkey = rng.choice(["dict", "msgpack", "orjson"])
+        mixin = BASES[mixkey]
+        lazy = "        lazy_compilation = True\n" if rng.random() < 0.2 else ""
+        facts = {"scenario": "special-" + which, "mixin": mixkey}
+
+        def count(kind, ident=None):
+            return sum(1 for e in LOG if e[0] == kind and (ident is None or e[2] == ident))
+
+        def expect_once(label, kinds, obj, src):
+            rec.evaluation()
+            bad = {k: count(k, id(obj) if k != "pre_de" else None) for k in kinds}
+            # pre_deserialize carries no instance: at least once (rejected union candidates may add more), the others exactly once
+            wrong = {k: n for k, n in bad.items() if (n < 1 if k == "pre_de" else n != 1)}
+            if wrong:
+                rec.violation(f"special:{which}:{label.split('|')[0]}:hook-count", {"label": label, "counts": bad, "trace": [list(map(str, e)) for e in LOG[:12]], "source": src},
+                              dict(facts, kind="count"))
+            else:
+                rec.count("special_hook_counts_ok")
+                rec.nontrivial(("special-hooks", which, mixkey, label))
+        if which == "A":
+            src = (f"@dataclass\nclass EB({mixin}):\n    class Config(BaseConfig):\n        discriminator = Discriminator(field='kind', include_subtypes=True)\n{lazy}" + HOOKS4 +
+                   "@dataclass\nclass E1(EB):\n    kind = 'one'\n    a: int = 0\n"
+                   "@dataclass\nclass E2(E1):\n    kind = 'two'\n    b: int = 0\n"
+                   f"@dataclass\nclass Hold({mixin}):\n    e: EB\n    es: List[EB] = field(default_factory=list)\n    m: Dict[str, EB] = field(default_factory=dict)\n    o: Optional[EB] = None\n")
+            fam.exec_src(src)
+            m = fam.module
+            tag = rng.choice(["one", "two"])
+            d = {"kind": tag, "a": 1}
+            routes = [("base.from_dict", lambda: [m.EB.from_dict(dict(d))]),
+                      ("holder-field", lambda: [m.Hold.from_dict({"e": dict(d)}).e]),
+                      ("holder-list", lambda: m.Hold.from_dict({"e": dict(d), "es": [dict(d), dict(d)]}).es),
+                      ("holder-dict", lambda: list(m.Hold.from_dict({"e": dict(d), "m": {"k": dict(d)}}).m.values())),
+                      ("holder-optional", lambda: [m.Hold.from_dict({"e": dict(d), "o": dict(d)}).o]),
+                      ("codec-list", lambda: BasicDecoder(eval("List[EB]", m.__dict__)).decode([dict(d)])),
+                      ("variant.from_dict", lambda: [(m.E1 if tag == "one" else m.E2).from_dict(dict(d))])]
+            if mixkey == "msgpack":
+                routes.append(("base.from_msgpack", lambda: [m.EB.from_msgpack(msgpack.packb(d))]))
+            rng.shuffle(routes)
+            for label, fn in routes:
+                LOG.clear()
+                try:
+                    objs = fn()
+                except Exception as e:
+                    rec.evaluation()
+                    rec.violation(f"special:A:{label}:exception:{type(e).__name__}", {"label": label, "error": f"{type(e).__name__}: {e}"[:200], "source": src}, facts)
+                    continue
+                for o in objs:
+                    expect_once(label + "|" + tag, ("pre_de", "post_de"), o, src)
+        else:
+            src = (f"@dataclass\nclass Ev({mixin}):\n    a: int = 0\n    when: Optional[datetime.date] = None\n"
+                   + ("    class Config(BaseConfig):\n" + lazy if lazy else "") +
+                   "@dataclass\nclass Aud(Ev):\n" + HOOKS4 +
+                   "@dataclass\nclass Aud2(Aud):\n    pass\n")
+            fam.exec_src(src)
+            m = fam.module
+            cls = rng.choice([m.Aud, m.Aud2])
+            later_holder = rng.random() < 0.5
+            x = cls(3)
+            steps = [("to_dict", lambda: x.to_dict(), ("pre_ser", "post_ser"), lambda r: x),
+                     ("from_dict", lambda: cls.from_dict({"a": 3}), ("pre_de", "post_de"), lambda r: r),
+                     ("codec-encode", lambda: BasicEncoder(cls).encode(x), ("pre_ser", "post_ser"), lambda r: x),
+                     ("codec-decode", lambda: BasicDecoder(cls).decode({"a": 3}), ("pre_de", "post_de"), lambda r: r)]
+            if mixkey == "msgpack":
+                steps += [("to_msgpack", lambda: x.to_msgpack(), ("pre_ser", "post_ser"), lambda r: x),
+                          ("from_msgpack", lambda: cls.from_msgpack(msgpack.packb({"a": 3})), ("pre_de", "post_de"), lambda r: r)]
+            if mixkey == "orjson":
+                steps += [("to_jsonb", lambda: x.to_jsonb(), ("pre_ser", "post_ser"), lambda r: x),
+                          ("from_json", lambda: cls.from_json(b'{"a": 3}'), ("pre_de", "post_de"), lambda r: r)]
+            rng.shuffle(steps)
+            for label, fn, kinds, who in steps:
+                LOG.clear()
+                try:
+                    r = fn()
+                except Exception as e:
+                    rec.evaluation()
+                    rec.violation(f"special:B:{label}:exception:{type(e).__name__}", {"label": label, "error": f"{type(e).__name__}: {e}"[:200], "source": src}, facts)
+                    continue
+                expect_once(label + "|" + cls.__name__, kinds, who(r), src)
+    finally:
+        fam.dispose()
+        LOG.clear()
+
+
 def run_case(seed, tier, rec, st):
     from mashumaro.codecs.basic import BasicDecoder, BasicEncoder
     from mashumaro.codecs.json import JSONDecoder, JSONEncoder
@@ -206,6 +314,8 @@ def run_case(seed, tier, rec, st):
     from mashumaro.codecs.msgpack import MessagePackDecoder, MessagePackEncoder
     from mashumaro.codecs.yaml import YAMLDecoder, YAMLEncoder
     rng = random.Random(seed)
+    if rng.random() < 0.08:
+        return special_hook_cases(rng, tier, rec)
     famd = gen_family(rng)
     fam = Family("c19", extra_ns={"LOG": LOG})
     try:
